@@ -237,4 +237,84 @@ package sm2
 //@   (requires curve (not (isnil c)))
 //@   (requires consts (consts))
 //@   (fresh k)
+//@   (ghost-havoc io.pos)
 //@   (ensures range (=> (isnil err) (and (not (isnil k)) (<= 1 (bigval k)) (<= (bigval k) (- (ec.n (tag c)) 1))))))
+//@ (func "(*PublicKey).Sm3Digest"
+//@   (uses "big" "big:axioms")
+//@   (requires init (and (sm2init) (consts)))
+//@   (requires key (wfpub pub)))
+
+// GM/T 0003.2 section 6.1 with e = H(ZA || M): A3 k in [1,n-1]; A4 (x1,y1) = [k]G; A5 r = (e + x1) mod n, retry when
+// r = 0 or r + k = n; A6 s = ((1 + dA)^-1 (k - r dA)) mod n, retry when s = 0.  The nonce k and the inverse are locals:
+// gvc cannot name them reliably at the exit of the retry loops, so only the ranges of r and s are stated here; the
+// equations are covered by the bounded standard-vector stand-in (/verif/bounded/sm2/vectors_test.go).
+//@ (defmacro ordn (k) (ec.n (tag (field k PublicKey Curve))))
+//@ (func Sm2Sign split-returns
+//@   (uses "ec" "big" "big:axioms")
+//@   (requires init (and (sm2init) (consts)))
+//@   (requires key (wfpriv priv))
+//@   (requires valid (and (<= 1 (bigval (field priv D))) (<= (bigval (field priv D)) (- (ordn priv) 2))))
+//@   (ghost-havoc io.pos)
+//@   (ensures results (=> (isnil err) (and (not (isnil r)) (not (isnil s))
+//@        (<= 1 (bigval r)) (< (bigval r) (ordn priv)) (<= 1 (bigval s)) (< (bigval s) (ordn priv)))))
+//@   (loop 1 (invariant true true)))
+
+// GM/T 0003.2 section 7.1: B1/B2 r', s' in [1,n-1]; B5 t = (r' + s') mod n, reject t = 0; B6 (x1',y1') = [s']G + [t]PA;
+// B7 R = (e' + x1') mod n, accept iff R = r'.  Verify takes e' as the bytes of a digest.
+//@ (defmacro ctag (pub) (tag (field pub Curve)))
+//@ (defmacro nof (pub) (ec.n (ctag pub)))
+//@ (defmacro tval (r s pub) (mod (+ (bigval r) (bigval s)) (nof pub)))
+//@ (defmacro x1of (pub r s) (ec.addx (ctag pub)
+//@      (ec.bmulx (ctag pub) (bigval s)) (ec.bmuly (ctag pub) (bigval s))
+//@      (ec.mulx (ctag pub) (tval r s pub) (bigval (field pub X)) (bigval (field pub Y)))
+//@      (ec.muly (ctag pub) (tval r s pub) (bigval (field pub X)) (bigval (field pub Y)))))
+//@ (func Verify split-returns
+//@   (uses "ec" "big" "big:axioms")
+//@   (requires key (wfpub pub))
+//@   (requires sig (and (not (isnil r)) (not (isnil s))))
+//@   (returns result (and (<= 1 (bigval r)) (< (bigval r) (nof pub)) (<= 1 (bigval s)) (< (bigval s) (nof pub))
+//@                        (not (= (tval r s pub) 0))
+//@                        (= (mod (+ (x1of pub r s) (big.ofbytes (row hash) (off hash) (len hash))) (nof pub)) (bigval r)))))
+//@ (func Sm2Verify
+//@   (uses "ec" "big" "big:axioms")
+//@   (requires init (and (sm2init) (consts)))
+//@   (requires key (wfpub pub))
+//@   (requires sig (and (not (isnil r)) (not (isnil s))))
+//@   (ensures rejects (=> result (and (<= 1 (bigval r)) (< (bigval r) (nof pub)) (<= 1 (bigval s)) (< (bigval s) (nof pub))
+//@                        (not (= (tval r s pub) 0))))))
+
+// ---- public-key encryption and key exchange ----------------------------------------------------------------------------------
+// kdf, BytesCombine and intToBytes drive sm3 (proved under C04) over byte strings; trusted here for lengths only.
+//@ (func kdf trusted
+//@   (ensures len (= (len result.0) (ite (bvsgt length 0) length 0)))
+//@   (ensures window (bvsle (len result.0) (cap result.0)))
+//@   (ensures fresh (or (isnil result.0) (fresh-obj result.0)))
+//@   (ensures empty (=> (not (bvsgt length 0)) (not result.1))))
+//@ (func BytesCombine trusted)
+//@ (func keXHat autoloops
+//@   (uses "big" "big:axioms")
+//@   (requires nn (not (isnil x)))
+//@   (fresh xul)
+//@   (ensures nonnil (not (isnil xul))))
+// Encrypt: a ciphertext 0x04 || C1 (64) || C3 (32) || C2 (len data) in either ordering, or an error; the retry loop is
+// left only through a return (for an empty plaintext the KDF output is empty and no retry happens).
+//@ (func Encrypt autoloops
+//@   (uses "ec" "big" "big:axioms")
+//@   (requires init (consts))
+//@   (requires key (wfpub pub))
+//@   (requires size (bvslt (len data) #x0000010000000000))
+//@   (ghost-havoc io.pos)
+//@   (ensures len (=> (isnil result.1) (= (len result.0) (bvadd 97 (len data)))))
+//@   (ensures either (= (isnil result.1) (not (isnil result.0))))
+//@   (loop 1 (invariant true true)))
+// Decrypt: an error for every ciphertext shorter than 1 + 64 + 32 bytes and for every C1 that is not on the curve.
+//@ (func Decrypt autoloops split-returns
+//@   (uses "ec" "big" "big:axioms")
+//@   (requires key (wfpriv priv))
+//@   (requires size (bvslt (len data) #x0000010000000000))
+//@   (ensures short (=> (bvslt (len data) 97) (not (isnil result.1))))
+//@   (ensures offcurve (=> (and (bvsge (len data) 97) (not (= mode 1))
+//@        (not (ec.on (tag (field priv PublicKey Curve)) (big.ofbytes (old (row data)) (bvadd (off data) 1) 32)
+//@                                                     (big.ofbytes (old (row data)) (bvadd (off data) 33) 32))))
+//@        (not (isnil result.1))))
+//@   (ensures len (=> (isnil result.1) (= (len result.0) (bvsub (len data) 97)))))
